@@ -5,7 +5,7 @@ from vlib import Stage
 SRCS = ['props/C06_packing.cpp', 'props/C06_packing_tmpl.cpp', 'props/C06_packing_float.cpp']
 
 RULE = ('format table (least-significant field first) driving three generators per format: (1) packed words - every word of the <=16-bit formats, '
-        'every word of the 32-bit formats in thorough (one word per block of 256 in quick; thorough keeps one per block of 4 for the four 32-bit template instances and for F2x11_1x10), structured random words for the 64-bit formats, and every '
+        'every word of the 32-bit formats in thorough (one word per block of 256 in quick; thorough keeps one per block of 4 for the four 32-bit packUnorm<>/packSnorm<> instances), structured random words for the 64-bit formats, and every '
         'code of every field with the other fields all-zero / all-one / random; (2) real inputs per component - code preimages and midpoints +-3 ulp, '
         'range ends, beyond-range, +-0, subnormals, +-inf, uniform, and for the small-float formats values of codes, denormal range, sub-minimum, '
         'above-maximum, negative, NaN; (3) every float bit pattern through packUnorm1x8/1x16 and packSnorm1x8/1x16 (thorough; one per block of 16 in quick). '
